@@ -60,7 +60,13 @@ Inductive c09_case :=
    re.split / str.strip on the corresponding character string; checks the
    transcription in Spec.C09_Spec, not boltons *)
 | CRefSplit (src : list K) (sep : sepk) (maxsplit : option nat) (o : LL)
-| CRefStrip (which : stripk) (src : list K) (v : K) (o : list K).
+| CRefStrip (which : stripk) (src : list K) (v : K) (o : list K)
+(* the same call observed a second way: every emitted item of the list form
+   as (class token, position of that very object in src by `is`, or -1).
+   Elements are then objects that are == but not `is` each other (1000,
+   1000.0, Fraction(1000), Decimal(1000); a str and an instance of a str
+   subclass; NaN objects, equal to nothing) *)
+| CIds (inner : c09_case) (groups : list (list (K * Z))).
 
 (* ---- equalities ----------------------------------------------------------- *)
 Definition items_eqb : list (K * list K) -> list (K * list K) -> bool :=
@@ -84,7 +90,7 @@ Definition ty_chunks (srck : nat) (r : res LL) : nat :=
   end.
 
 (* ---- agree: model = implementation ---------------------------------------- *)
-Definition c09_agree (c : c09_case) : bool :=
+Fixpoint c09_agree (c : c09_case) : bool :=
   match c with
   | CChunked src srck size count fill ol oi tl ti =>
       res_eqb ll_eqb (m_chunked src size count fill) ol
@@ -122,6 +128,45 @@ Definition c09_agree (c : c09_case) : bool :=
   | CRefStrip w src v o =>
       l_eqb o (match w with StripL => py_lstrip v src | StripR => py_rstrip v src
                           | StripB => py_strip v src end)
+  | CIds inner _ => c09_agree inner      (* the model has no notion of identity *)
+  end.
+
+(* ---- identity observation against the Spec --------------------------------- *)
+Definition classes (groups : list (list (K * Z))) : LL := map (map fst) groups.
+Definition positions (g : list (K * Z)) : list Z := map snd g.
+Definition zseq (l : list nat) : list Z := map Z.of_nat l.
+Definition zl_eqb : list Z -> list Z -> bool := list_eqb Z.eqb.
+
+(* per case kind: the groups restate the list-form output, every item is an
+   input object (or the fill), order is kept inside each group - across the
+   whole output where the helper emits each element at most once - and for
+   unique / redundant the positions are exactly the ones the positional Spec
+   selects (first occurrences / second sightings) *)
+Definition ids_ok (inner : c09_case) (groups : list (list (K * Z))) : bool :=
+  match inner with
+  | CChunked src _ _ _ fill (Ok l) _ _ _ =>
+      ll_eqb (classes groups) l && forallb (group_ids_ok src fill) groups
+      && increasing_from (-1) (map snd (concat groups))
+  | CWindowed src _ fill l _ _ _ | CPairwise src fill l _ _ _ =>
+      ll_eqb (classes groups) l && forallb (group_ids_ok src fill) groups
+  | CSplit src _ _ l _ _ _ =>
+      ll_eqb (classes groups) l && forallb (group_ids_ok src None) groups
+      && increasing_from (-1) (map snd (concat groups))
+  | CStrip _ src _ l _ =>
+      ll_eqb (classes groups) [l] && forallb (group_ids_ok src None) groups
+  | CUnique src key l _ =>
+      ll_eqb (classes groups) [l] && forallb (group_ids_ok src None) groups
+      && zl_eqb (map snd (concat groups))
+                (zseq (spec_unique (fun i => key_fn key (nth i src 0)) (seq 0 (length src))))
+  | CRedundant src key op og =>
+      ll_eqb (classes groups) (op :: og) && forallb (group_ids_ok src None) groups
+      && zl_eqb (positions (hd [] groups))
+                (zseq (spec_redundant (fun i => key_fn key (nth i src 0)) (seq 0 (length src))))
+  | CBucketize src _ VtId _ o =>
+      ll_eqb (classes groups) (map snd o) && forallb (group_ids_ok src None) groups
+  | CPartition src _ ot of_ =>
+      ll_eqb (classes groups) [ot; of_] && forallb (group_ids_ok src None) groups
+  | _ => false
   end.
 
 (* ---- holds: the observation satisfies the Spec ---------------------------- *)
@@ -129,24 +174,29 @@ Definition c09_agree (c : c09_case) : bool :=
    size 0, overlap >= chunk_size, negative sizes, len(key) != len(src)) are
    not constrained by the property: holds is vacuous there, agree still pins
    the behaviour to the model. *)
-Definition c09_holds (c : c09_case) : bool :=
+Fixpoint c09_holds (c : c09_case) : bool :=
   match c with
-  | CChunked src _ size count fill ol oi _ _ =>
+  | CChunked src srck size count fill ol oi tl ti =>
       if (size <=? 0)%Z then true
       else match ol, oi with
            | Ok l, Ok i =>
                let n := Z.to_nat size in
                chunked_ok n fill count src l && chunked_ok n fill None src i
                && ll_eqb l (match count with None => i | Some c => firstn c i end)
+               && (tl =? spec_group_type (spec_chunk_type srck) l)
+               && (ti =? spec_group_type (spec_chunk_type srck) i)
            | _, _ => false
            end
-  | CWindowed src size fill ol oi _ _ =>
+  | CWindowed src size fill ol oi tl ti =>
       if size =? 0 then true
       else ll_eqb ol (spec_windowed src size fill) && ll_eqb oi ol
-  | CPairwise src fill ol oi _ _ =>
+           && (tl =? spec_group_type 2 ol) && (ti =? spec_group_type 2 oi)
+  | CPairwise src fill ol oi tl ti =>
       ll_eqb ol (spec_windowed src 2 fill) && ll_eqb oi ol
-  | CSplit src sep maxsplit ol oi _ _ =>
+      && (tl =? spec_group_type 2 ol) && (ti =? spec_group_type 2 oi)
+  | CSplit src sep maxsplit ol oi tl ti =>
       ll_eqb ol (spec_split sep maxsplit src) && ll_eqb oi ol
+      && (tl =? spec_group_type 1 ol) && (ti =? spec_group_type 1 oi)
   | CStrip w src v ol oi =>
       l_eqb ol (match w with StripL => py_lstrip v src | StripR => py_rstrip v src
                            | StripB => py_strip v src end)
@@ -183,6 +233,7 @@ Definition c09_holds (c : c09_case) : bool :=
   | CRefStrip w src v o =>
       l_eqb o (match w with StripL => py_lstrip v src | StripR => py_rstrip v src
                           | StripB => py_strip v src end)
+  | CIds inner groups => c09_holds inner && ids_ok inner groups
   end.
 
 Definition c09_verdict (c : c09_case) : verdict := (c09_agree c, c09_holds c, false).
@@ -192,7 +243,7 @@ Inductive c09_model_out :=
 | MLL (a b : res LL) | ML (a b : list K) | MRed (a : list K) (b : LL)
 | MItems (a : res (list (K * list K))) | MPart (a b : list K) | MRanges (a : res ranges).
 
-Definition c09_explain (c : c09_case) : c09_model_out :=
+Fixpoint c09_explain (c : c09_case) : c09_model_out :=
   match c with
   | CChunked src _ size count fill _ _ _ _ =>
       MLL (m_chunked src size count fill) (m_chunked_iter src size fill)
@@ -213,4 +264,5 @@ Definition c09_explain (c : c09_case) : c09_model_out :=
   | CRefSplit src sep maxsplit _ => MLL (Ok (spec_split sep maxsplit src)) (Ok [])
   | CRefStrip w src v _ =>
       ML (match w with StripL => py_lstrip v src | StripR => py_rstrip v src | StripB => py_strip v src end) []
+  | CIds inner _ => c09_explain inner
   end.
